@@ -64,10 +64,15 @@ UNKNOWN = {
              'line_endings'],
 }
 
+# two metadata objects that Python's == cannot tell apart but that are
+# different JSON values (1 / true / 1.0): assigning one over the other is a
+# real change
+TWIN_A = {'mode': 1, 'n': [0, 1.0, {'deep': 1}], 'k': 'v'}
+TWIN_B = {'mode': True, 'n': [False, 1, {'deep': 1.0}], 'k': 'v'}
 VALUES = {
     str: ['utf-8', 'latin-1'],
     int: [0, 7],
-    dict: [{'a': 'x'}, {'b': [1, {'c': None}]}],
+    dict: [{'a': 'x'}, {'b': [1, {'c': None}]}, TWIN_B, TWIN_A, {}],
     bytes: [b'a\n', SAMPLE_DIFF],
 }
 import enum
@@ -175,6 +180,12 @@ def base_specs(tier):
                 'changes': [{'attrs': changes[1], 'files': [files[1],
                                                             files[2]]},
                             {'files': [files[0]]}]})
+    # every metadata is TWIN_A (so that assigning TWIN_B replaces an ==
+    # object) / empty (so that assigning {} replaces an equal object)
+    out.append({'main': {'meta': TWIN_A, 'preamble': 'p\n'},
+                'changes': [{'attrs': {'meta': TWIN_A},
+                             'files': [{'meta': TWIN_A}, {'meta': TWIN_B}]},
+                            {'attrs': {}, 'files': [{'meta': {'p': 1}}]}]})
     # trees reached by parsing (options arrive verbatim from headers)
     from mc import spec as _spec
     fa, _ = _spec.serialize([
@@ -589,11 +600,15 @@ def eq_checks(a, b, label):
     to_bytes equal when serialisable."""
     v = []
     same = fsnap(a) == fsnap(b)
+    # trees that differ only in numbers Python's == identifies (1 / True /
+    # 1.0): "equal content" can be read either way, so either answer of ==
+    # is accepted -- but see the serialisation clause below
+    twins = not same and snap(a) == snap(b)
     try:
         e1, e2, n1 = (a == b), (b == a), (a != b)
     except Exception as e:
         return [('eq-raised:%s' % type(e).__name__, '%s: %r' % (label, e))]
-    if e1 != same:
+    if e1 != same and not twins:
         v.append(('eq-not-structural:%s' % ('equal-but-different'
                                             if e1 else
                                             'unequal-but-same'),
@@ -608,7 +623,8 @@ def eq_checks(a, b, label):
         except Exception:
             ba = bb = None
         if ba != bb:
-            v.append(('equal-trees-serialise-differently', label))
+            v.append(('equal-trees-serialise-differently' +
+                      (':python-equal-numbers' if twins else ''), label))
     return v
 
 
